@@ -45,7 +45,7 @@ func Fixgen() (string, error) {
 		}
 		fixgenPath = filepath.Join(dir, "fixgen")
 		cmd := exec.Command(goBin, "build", "-o", fixgenPath, "./cmd/fixgen")
-		cmd.Dir = "/repo"
+		cmd.Dir = schema.RepoDir()
 		env := os.Environ()
 		env = append(env, "GOFLAGS=-mod=readonly", "GOPROXY=off", "GOSUMDB=off", "GOTOOLCHAIN=local")
 		cmd.Env = env
@@ -66,11 +66,11 @@ func NewWork(tag string) (*Work, error) {
 	if err := os.MkdirAll(dir, 0o755); err != nil {
 		return nil, err
 	}
-	gomod := "module scratch\n\ngo 1.18\n\nrequire github.com/b2broker/simplefix-go v0.0.0\n\nreplace github.com/b2broker/simplefix-go => /repo\n"
+	gomod := "module scratch\n\ngo 1.18\n\nrequire github.com/b2broker/simplefix-go v0.0.0\n\nreplace github.com/b2broker/simplefix-go => " + schema.RepoDir() + "\n"
 	if err := os.WriteFile(filepath.Join(dir, "go.mod"), []byte(gomod), 0o644); err != nil {
 		return nil, err
 	}
-	sum, _ := os.ReadFile("/repo/go.sum")
+	sum, _ := os.ReadFile(schema.RepoDir()+"/go.sum")
 	_ = os.WriteFile(filepath.Join(dir, "go.sum"), sum, 0o644)
 	return &Work{Dir: dir}, nil
 }
